@@ -109,9 +109,12 @@ func newestDurableManifest(fs *crashfs.FS) (name string, parts map[string]bool) 
 //	   durable with all its files, including metadata.json
 //	T5 a manifest is unlinked only when a newer manifest is durable
 //	T6 a part directory is dismantled only when the newest durable manifest does not name it
+//	T8 metadata.json is the commit record of a part: once it is renamed into place nothing else is created or written
+//	   in that part directory
 func traceInvariants(ops []crashfs.Op, counts map[string]int) []traceViolation {
 	var out []traceViolation
 	seen := map[string]bool{}
+	committed := map[string]bool{} // part directories whose metadata.json is in place
 	bad := func(k int, key, detail string) {
 		if !seen[key] {
 			seen[key] = true
@@ -124,6 +127,16 @@ func traceInvariants(ops []crashfs.Op, counts map[string]int) []traceViolation {
 		}
 		op := ops[k]
 		segmentTrace(fs, op, counts, func(key, detail string) { bad(k, key, detail) })
+		if (op.Kind == "write" || (op.Kind == "open" && op.Flags&os.O_CREATE != 0)) && committed[dirOf(op.Path)] {
+			bad(k, fmt.Sprintf("T8 %s is created or written after the part's commit record metadata.json is in place", fileClass(op.Path)), op.Path)
+		}
+		if op.Kind == "rename" && baseOf(op.Path2) == "metadata.json" {
+			counts["T8_parts_committed"]++
+			committed[dirOf(op.Path2)] = true
+		}
+		if op.Kind == "rmdir" {
+			delete(committed, op.Path)
+		}
 		switch op.Kind {
 		case "open":
 			if op.Flags&os.O_CREATE != 0 {
